@@ -644,3 +644,24 @@ Proof.
   intros nf t Hin. destruct (frame_ok_in n cols nf Hok Hin) as [Hwf Hfl].
   apply field_index_correct; [exact Hwf|rewrite Hfl; apply lexsort_in_range; exact Hn|reflexivity].
 Qed.
+
+(* ------------------------------------------------------------------ Session.apply_* on an ndarray source *)
+Theorem session_filter_array_correct src dt flt dest :
+  (dt =? 0) || (dt =? 1) = true -> len flt = len src ->
+  session_apply_filter_array src dt flt dest
+  = Ok (gather 0 src (sel (truthy flt)),
+        match dest with Some d => Some (d ++ gather 0 src (sel (truthy flt))) | None => None end).
+Proof.
+  intros Hdt Hl. unfold session_apply_filter_array. rewrite (validate_filter_ok _ _ Hdt). cbn [bind].
+  rewrite (np_mask_ok 0) by (rewrite len_truthy; exact Hl). reflexivity.
+Qed.
+
+Theorem session_index_array_correct src idx dest :
+  in_range (len src) idx = true ->
+  session_apply_index_array src idx dest
+  = Ok (gather 0 src idx, match dest with Some d => Some (d ++ gather 0 src idx) | None => None end).
+Proof.
+  intros Hr. unfold session_apply_index_array. rewrite (np_take_ok 0); [reflexivity|].
+  apply Forall_forall. intros k Hk. unfold in_range in Hr. rewrite forallb_forall in Hr.
+  specialize (Hr k Hk). lia.
+Qed.
